@@ -29,6 +29,14 @@ Tie of the protocol model to the code:
               at the moment of observation (Goat.C12.error_published_before_done / isolated_child_never_stopped prove
               them for the order record-then-close, close_first_hides_error refutes the swapped order,
               Goat.Tie.C12.tie_record_then_close reads the order off the source).
+  (6) late    late errors (harness/cmd/scopesig/late.go): a parent blocked in Wait()/Close() while its children (sharing
+              its context; some with a grandchild) are closed in other goroutines and its tasks append an error and
+              call DoneTask; failing listeners on every close-protocol event and on ErrorEvent.  The code appends
+              every listener error before `parent.DoneTask()`, so the value returned by the parent's Wait()/Close()
+              and Errors()/Err() read right after it contain every error produced by the children's Close and the
+              tasks; a scope whose descendants failed does not run Commit listeners; a child's Close() returns the
+              errors of its subtree; nothing foreign, everything held once at the end.  Verdict after all goroutines
+              have returned, from values stored at the moment of observation.
 Spec-vs-implementation: every clause above is evaluated on the implementation alone (panic counters, the monitor,
 `_spec_seq` below recomputes the expected answers of a sequential case from its op tokens without the model).
 """
@@ -305,7 +313,7 @@ def _stress(ctx, go, model, rounds, maxg, tag, seeds, env=None):
 
 
 # ----------------------------------------------------------------------------------------------- publication order
-def _pub(ctx, go, rounds, tag, seeds):
+def _pub(ctx, go, rounds, tag, seeds, cmd="pub"):
     """the publication-order oracle in parallel shards; returns (problems, summaries)"""
     import subprocess
     procs = []
@@ -315,7 +323,7 @@ def _pub(ctx, go, rounds, tag, seeds):
         e.setdefault("GOMEMLIMIT", "4GiB")
         out = open(ctx.path("%s.%d.out" % (tag, i)), "wb")
         err = open(ctx.path("%s.%d.err" % (tag, i)), "wb")
-        procs.append((sd, subprocess.Popen([go, "pub", str(rounds)], stdout=out, stderr=err, env=e), out, err))
+        procs.append((sd, subprocess.Popen([go, cmd, str(rounds)], stdout=out, stderr=err, env=e), out, err))
     problems, summaries = [], []
     for i, (sd, p, out, err) in enumerate(procs):
         try:
@@ -325,11 +333,11 @@ def _pub(ctx, go, rounds, tag, seeds):
             rc = 124
         out.close()
         err.close()
-        replay = "pub %d seed=%d" % (rounds, sd)
+        replay = "%s %d seed=%d" % (cmd, rounds, sd)
         etxt = open(ctx.path("%s.%d.err" % (tag, i)), errors="replace").read()
         if rc != 0:
             first = GO_CRASH.search(etxt)
-            problems.append((replay, "the publication-order process died (%s)" % (first.group(1) if first else "exit %d" % rc),
+            problems.append((replay, "the %s oracle process died (%s)" % (cmd, first.group(1) if first else "exit %d" % rc),
                              etxt[-1200:]))
         cur = None
         for l in open(ctx.path("%s.%d.out" % (tag, i)), errors="replace"):
@@ -338,7 +346,7 @@ def _pub(ctx, go, rounds, tag, seeds):
                 problems.append(cur)
             elif l.startswith("also ") and cur is not None:
                 cur[2] += l
-            elif l.startswith("pub "):
+            elif l.startswith(cmd + " "):
                 summaries.append(l.strip())
     return problems, summaries
 
@@ -396,6 +404,7 @@ def _run(ctx, go):
     nshards = ctx.pick(4, 14)
     pub_rounds = ctx.pick(10000, 100000)
     pub_shards = ctx.pick(4, 12)
+    late_rounds = ctx.pick(2500, 40000)
     ctx.rule = ("gated: 6 two-goroutine scenarios x {plain, isolated}, both goroutines parked right after the IsDone "
                 "test by the verif hook, then released (deterministic).  seq: corpus/C12 + %d generated cases (forest "
                 "of 1..4 contexts, each plain or isolated under an earlier one; 4..25 operations AppendError with 0..3 "
@@ -411,8 +420,14 @@ def _run(ctx, go):
                 "target context (plain / scope / shared child scope / isolated) with 0..3 isolated descendants, 1..4 "
                 "waiters per context blocked on Done(), 0..12 pollers spinning on IsDone/Errors/Err, 1..3 concurrent "
                 "error-carrying enders drawn from 7 entry points, GOMAXPROCS in {2,3,4,8,16}, Gosched at yield points "
-                "in half of the rounds; a clause evaluation = one wake-up read, one poller hit or one descendant."
-                % (n_seq, nshards, rounds, race_rounds, pub_shards, pub_rounds))
+                "in half of the rounds; a clause evaluation = one wake-up read, one poller hit or one descendant.  "
+                "late: %d shards x %d rounds, each a parent scope (root or itself a child) blocked in Wait() or Close() "
+                "with 1..3 children (a third of them with a grandchild) sharing its context and 0..2 tasks, all "
+                "registered up front; every scope carries failing listeners (probability 1/4 each, with random "
+                "slowness) on before-close / the three commit / the three rollback events / after-close / ErrorEvent, "
+                "inherited by its descendants; children are closed and tasks append-then-DoneTask in their own "
+                "goroutines; a clause evaluation = one parent Wait/Close observation or one commit decision."
+                % (n_seq, nshards, rounds, race_rounds, pub_shards, pub_rounds, pub_shards, late_rounds))
     concrete = False
 
     # --- corpus + gated scenarios + sequential differential
@@ -510,6 +525,25 @@ def _run(ctx, go):
                       "error:\n" + what, lines=[replay],
                       annotations=[what] + (extra[:1500].split("\n") if extra else []), concrete=True)
 
+    # --- late errors: what children's close-protocol listeners and tasks produce before they sign off is reported
+    #     by the parent's Wait()/Close() (harness/cmd/scopesig/late.go)
+    lseeds = [ctx.seed * 1000 + 800 + i for i in range(pub_shards)]
+    lproblems, lsummaries = _pub(ctx, go, late_rounds, "late", lseeds, cmd="late")
+    ltot = _summ(ctx, lsummaries, "late:")
+    ctx.extra["late_errors"] = ltot
+    ctx.evaluations += ltot.get("waitobs", 0) + ltot.get("closeobs", 0) + ltot.get("commitobs", 0)
+    if len(lsummaries) != pub_shards and not lproblems:
+        ctx.fatal("late-error oracle: %d of %d shards reported" % (len(lsummaries), pub_shards))
+    for k in ("waitobs", "closeobs", "produced", "listener:after-close", "listener:error-event", "tasks"):
+        if not ltot.get(k):
+            ctx.notes.append("coverage gap: the late-error oracle has no `%s`" % k)
+    for replay, what, extra in lproblems[:3]:
+        concrete = True
+        ctx.violation("impl-vs-spec", "a scope that waited for its children / tasks (Wait, or the Wait inside Close) "
+                      "returned without an error they produced before signing off, or committed although they "
+                      "failed:\n" + what, lines=[replay],
+                      annotations=[what] + (extra[:1500].split("\n") if extra else []), concrete=True)
+
     # --- stress, decided by the Lean monitor
     seeds = [ctx.seed * 1000 + i for i in range(nshards)]
     problems, summaries, _ = _stress(ctx, go, model, rounds, 64, "stress", seeds)
@@ -603,9 +637,9 @@ def replay(ctx, path):
                 print("race  ", "%d data race(s) on the error list / done channel / wait group" % len(sig))
             if pr or sig:
                 rc = 1
-        elif line.startswith("pub "):
+        elif line.startswith("pub ") or line.startswith("late "):
             f = line.split()
-            pr, summ = _pub(ctx, go, int(f[1]), "replay", [int(f[2].split("=")[1])])
+            pr, summ = _pub(ctx, go, int(f[1]), "replay", [int(f[2].split("=")[1])], cmd=f[0])
             for s_ in summ:
                 print("impl  ", s_[:300])
             for _, what, extra in pr[:5]:
